@@ -138,6 +138,75 @@ theorem insertDim_congr {α} {A B : Arr α} (h : EqvIn A B) : EqvIn (insertDimAr
     simp only [insertDimArr] at hidx ⊢
     exact h.2 _ (inRange_tail hidx)
 
+theorem expandIdx_inRange : ∀ (shape idx : List Nat), InRange (shape.filter (· != 1)) idx →
+    InRange shape (expandIdx shape idx) := by
+  intro shape
+  induction shape with
+  | nil => intro idx _; exact ⟨rfl, fun k h => by simp [expandIdx] at h⟩
+  | cons n ns ih =>
+    intro idx h
+    by_cases hn : n = 1
+    · subst hn
+      have h' : InRange (ns.filter (· != 1)) idx := by simpa using h
+      have := ih idx h'
+      simp only [expandIdx, beq_self_eq_true, if_true]
+      exact InRange.cons (by omega) this
+    · have hf : (n :: ns).filter (· != 1) = n :: ns.filter (· != 1) := by simp [hn]
+      rw [hf] at h
+      cases idx with
+      | nil => have := h.1; simp at this
+      | cons i is =>
+        have hi : i < n := by
+          have := h.2 0 (by simp) (by simp)
+          simpa using this
+        have ht := inRange_tail h
+        simp only [List.tail_cons] at ht
+        have hn' : (n == 1) = false := by simpa using hn
+        simp only [expandIdx, hn']
+        exact InRange.cons hi (ih is ht)
+
+theorem squeeze_congr {α} {A B : Arr α} (h : EqvIn A B) : EqvIn (squeezeArr A) (squeezeArr B) := by
+  constructor
+  · simp [squeezeArr, h.1]
+  · intro idx hidx
+    simp only [squeezeArr] at hidx ⊢
+    rw [← h.1]
+    exact h.2 _ (expandIdx_inRange _ _ hidx)
+
+theorem foldl_mul_init (l : List Nat) (a : Nat) : l.foldl (· * ·) a = a * l.foldl (· * ·) 1 := by
+  induction l generalizing a with
+  | nil => simp
+  | cons x xs ih => simp only [List.foldl_cons]; rw [ih (a * x), ih (1 * x)]; simp [Nat.mul_assoc]
+
+theorem unravel_inRange : ∀ (shape : List Nat) (i : Nat), i < shape.foldl (· * ·) 1 → InRange shape (unravel shape i) := by
+  intro shape
+  induction shape with
+  | nil => intro i _; exact InRange.nil
+  | cons n ns ih =>
+    intro i hi
+    simp only [List.foldl_cons, Nat.one_mul] at hi
+    rw [foldl_mul_init] at hi
+    simp only [unravel]
+    have hp : 0 < ns.foldl (· * ·) 1 := by
+      rcases Nat.eq_zero_or_pos (ns.foldl (· * ·) 1) with h0 | h0
+      · rw [h0] at hi; simp at hi
+      · exact h0
+    exact InRange.cons ((Nat.div_lt_iff_lt_mul hp).mpr hi) (ih _ (Nat.mod_lt _ hp))
+
+theorem flatten_congr {α} {A B : Arr α} (h : EqvIn A B) : EqvIn (flattenArr A) (flattenArr B) := by
+  constructor
+  · simp [flattenArr, h.1]
+  · intro idx hidx
+    simp only [flattenArr] at hidx ⊢
+    rw [← h.1]
+    apply h.2
+    apply unravel_inRange
+    cases idx with
+    | nil => have := hidx.1; simp at this
+    | cons i is =>
+      have := hidx.2 0 (by simp) (by simp)
+      simpa using this
+
 theorem assign_congr {α} {A B : Arr α} (h : EqvIn A B) (ps : List (List Nat)) (v : α) :
     EqvIn (assignArr A ps v) (assignArr B ps v) := by
   constructor
@@ -350,5 +419,41 @@ theorem positionsNat_ok (shape : List Nat) (sels : List Sel) (h : selsWf shape s
       obtain ⟨i, hi, rfl⟩ := hp
       exact norm_bounds _ i (hwf i hi)
   omega
+
+/-- Successive subspaces compose: `takeAll (takeAll A s) t = takeAll A (s ∘ t)` on every valid index. -/
+theorem takeAll_compose {α} (A : Arr α) (s t : List (List Nat)) (hs : s.length = A.shape.length)
+    (ht : PosOK (s.map List.length) t) :
+    EqvIn (takeAll (takeAll A s) t)
+      (takeAll A (List.zipWith (fun (l m : List Nat) => m.map (fun j => l.getD j 0)) s t)) := by
+  have hts : t.length = s.length := by simpa using ht.1
+  have hsh1 : (takeAll A s).shape = s.map List.length := takeAll_shape A s hs
+  constructor
+  · rw [takeAll_shape _ t (by rw [hsh1]; simpa using hts),
+        takeAll_shape A _ (by simp [hts, hs])]
+    apply List.ext_getElem?
+    intro i
+    simp only [List.getElem?_map, List.getElem?_zipWith]
+    by_cases hi : i < t.length
+    · have : i < s.length := by omega
+      simp [hi, this]
+    · have : ¬ i < s.length := by omega
+      simp [hi, this]
+  · intro idx hidx
+    rw [takeAll_shape _ t (by rw [hsh1]; simpa using hts)] at hidx
+    simp only [takeAll, takeSome]
+    congr 1
+    apply List.ext_getElem?
+    intro k
+    simp only [List.getElem?_zipWith, List.getElem?_map]
+    by_cases hk : k < idx.length
+    · have hkt : k < t.length := by have := hidx.1; simp at this; omega
+      have hks : k < s.length := by omega
+      have hlt := hidx.2 k hk (by simpa using hkt)
+      simp only [List.getElem_map] at hlt
+      simp only [List.getElem?_eq_getElem hk, List.getElem?_eq_getElem hkt, List.getElem?_eq_getElem hks,
+        Option.map_some, pick]
+      simp [List.getD_eq_getElem?_getD, List.getElem?_map, List.getElem?_eq_getElem hlt]
+    · simp [List.getElem?_eq_none (Nat.le_of_not_lt hk)]
+
 
 end Cfdm.Lazy
